@@ -11,28 +11,65 @@ po = M.fold('po', Seq(P), Seq(T), '[]', 'lambda acc, e: acc + [e[1]] if e[0] <= 
 pn = M.fold('pn', Seq(P), Seq(T), '[]', 'lambda acc, e: acc + [e[1]] if e[0] >= 0 else acc',
             homomorphic=True)
 
+# Facts about the LCS length matrix c = _matrix(a, b) that the tie-break argument of _diff needs:
+# zero border, the recurrence, and the monotonicity / Lipschitz properties (which are inductive over
+# the fill order: rows <= R complete, row R+1 filled up to column Q).
+def matrix_facts(c, a, b, R, Q, rows='len(a)', cols='len(b)'):
+    """clauses over the filled region: all rows p <= R complete, row R+1 complete up to column Q"""
+    filled = f'(p <= {R} or (p == {R} + 1 and q <= {Q}))'
+    return [
+        f'all({c}[0][q] == 0 for q in range({cols} + 1))',
+        f'all({c}[p][0] == 0 for p in range({rows} + 1))',
+        # recurrence
+        f'all(implies({filled.replace("p", "(p + 1)").replace("q", "(q + 1)")} and {a}[p] == {b}[q],'
+        f'            {c}[p + 1][q + 1] == {c}[p][q] + 1) for p in range({rows}) for q in range({cols}))',
+        f'all(implies({filled.replace("p", "(p + 1)").replace("q", "(q + 1)")} and {a}[p] != {b}[q],'
+        f'            {c}[p + 1][q + 1] == max({c}[p + 1][q], {c}[p][q + 1])) for p in range({rows}) for q in range({cols}))',
+        # monotone and 1-Lipschitz in both directions (inside the filled region)
+        f'all(implies({filled.replace("p", "(p + 1)")}, {c}[p][q] <= {c}[p + 1][q] <= {c}[p][q] + 1)'
+        f'    for p in range({rows}) for q in range({cols} + 1))',
+        f'all(implies({filled.replace("q", "(q + 1)")}, {c}[p][q] <= {c}[p][q + 1] <= {c}[p][q] + 1)'
+        f'    for p in range({rows} + 1) for q in range({cols}))',
+    ]
+
+
+SHAPE = [
+    'len({c}) == len(a) + 1',
+    'all(len({c}[p]) == len(b) + 1 for p in range(len(a) + 1))',
+    'all({c}[p][q] >= 0 for p in range(len(a) + 1) for q in range(len(b) + 1))',
+]
+UNFILLED = 'all(implies(p > {R} + 1 or (p == {R} + 1 and q > {Q}), lengths[p][q] == 0) for p in range(len(a) + 1) for q in range(len(b) + 1))'
+
 M.contract(
     '_matrix',
     params={'a': Seq(T), 'b': Seq(T)},
     returns=Seq(Seq(Int)),
-    ensures=[
-        'len(result) == len(a) + 1',
-        'all(len(result[p]) == len(b) + 1 for p in range(len(a) + 1))',
-        'all(result[p][q] >= 0 for p in range(len(a) + 1) for q in range(len(b) + 1))',
-    ],
+    ensures=[x.format(c='result') for x in SHAPE] + matrix_facts('result', 'a', 'b', 'len(a)', 'len(b)'),
     loops=[
-        Loop(counter='ki', inv=[
-            'len(lengths) == len(a) + 1',
-            'all(len(lengths[p]) == len(b) + 1 for p in range(len(a) + 1))',
-            'all(lengths[p][q] >= 0 for p in range(len(a) + 1) for q in range(len(b) + 1))',
-        ]),
-        Loop(counter='kj', inv=[
-            'len(lengths) == len(a) + 1',
-            'all(len(lengths[p]) == len(b) + 1 for p in range(len(a) + 1))',
-            'all(lengths[p][q] >= 0 for p in range(len(a) + 1) for q in range(len(b) + 1))',
-        ]),
+        # for i, x in enumerate(a): rows <= ki are complete
+        Loop(counter='ki', inv=[x.format(c='lengths') for x in SHAPE]
+             + matrix_facts('lengths', 'a', 'b', 'ki', '0')
+             + [UNFILLED.format(R='ki', Q='0')]),
+        # for j, y in enumerate(b): row i + 1 is complete up to column kj
+        Loop(counter='kj', inv=[x.format(c='lengths') for x in SHAPE] + ['0 <= i < len(a)', 'x == a[i]']
+             + matrix_facts('lengths', 'a', 'b', 'i', 'kj')
+             + [UNFILLED.format(R='i', Q='kj')],
+             hints=[
+                 # neighbours of the cell that is about to be written (instances of the invariant)
+                 'lengths[i][j] <= lengths[i + 1][j] <= lengths[i][j] + 1',
+                 'lengths[i][j] <= lengths[i][j + 1] <= lengths[i][j] + 1',
+             ],
+             end_hints=[
+                 # the new cell is monotone and 1-Lipschitz with respect to its upper and left neighbour
+                 'lengths[i][j + 1] <= lengths[i + 1][j + 1] <= lengths[i][j + 1] + 1',
+                 'lengths[i + 1][j] <= lengths[i + 1][j + 1] <= lengths[i + 1][j] + 1',
+                 'all(lengths[p][q] == old_lengths[p][q] for p in range(len(a) + 1) for q in range(len(b) + 1)'
+                 '    if not (p == i + 1 and q == j + 1))' if False else 'True',
+             ]),
     ],
 )
+
+NO_PLUS_MINUS = 'all(not ({r}[q][0] == 1 and {r}[q + 1][0] == -1) for q in range(len({r}) - 1))'
 
 M.contract(
     '_diff',
@@ -41,13 +78,21 @@ M.contract(
     requires=[
         '-1 <= i < len(x)',
         '-1 <= j < len(y)',
-        'len(c) >= i + 2',
-        'all(len(c[p]) >= j + 2 for p in range(i + 2))',
-    ],
+        # c is the LCS length matrix of x and y (what diff passes: the result of _matrix)
+        'len(c) == len(x) + 1',
+        'all(len(c[p]) == len(y) + 1 for p in range(len(x) + 1))',
+        'all(c[p][q] >= 0 for p in range(len(x) + 1) for q in range(len(y) + 1))',
+    ] + matrix_facts('c', 'x', 'y', 'len(x)', 'len(y)', rows='len(x)', cols='len(y)'),
     ensures=[
         'all(-1 <= e[0] <= 1 for e in result)',
         'po(result) == x[:i + 1]',
         'pn(result) == y[:j + 1]',
+        # tie-break relied upon by the record updaters: inside a replaced run the deletions come
+        # before the insertions, i.e. an insertion is never directly followed by a deletion
+        NO_PLUS_MINUS.format(r='result'),
+        # (needed for the induction) the script ends with an insertion only in these cases
+        'implies(len(result) > 0 and result[len(result) - 1][0] == 1,'
+        '        j >= 0 and (i < 0 or (x[i] != y[j] and c[i + 1][j] >= c[i][j + 1])))',
     ],
     decreases='i + j + 2',
 )
@@ -61,11 +106,13 @@ M.contract(
         'all(-1 <= e[0] <= 1 for e in result)',
         'po(result) == old',
         'pn(result) == new',
+        NO_PLUS_MINUS.format(r='result'),
     ],
     loops=[
         # for a, b in zip(old, new): common head
         Loop(counter='k0', inv=[
             'i == k0',
+            'all(e[0] == 0 for e in result)',
             'all(-1 <= e[0] <= 1 for e in result)',
             'po(result) == old[:i]',
             'pn(result) == new[:i]',
@@ -129,11 +176,6 @@ def gen_diff_inputs(tier):
 
 
 M.contracts['diff'].domain = 'gen_seq_pairs'
-# relied upon by update_random_variable_records / update_thetas: within a replaced run the
-# deletions come before the insertions (tie-break of _diff).  Not proved (needs the Lipschitz
-# property of the LCS matrix); checked on the bounded domain only.
-M.contracts['diff'].ensures_bounded = [
-    'all(not (result[q][0] == 1 and result[q + 1][0] == -1) for q in range(len(result) - 1))',
-]
+
 M.contracts['_matrix'].domain = 'gen_matrix_inputs'
 M.contracts['_diff'].domain = 'gen_diff_inputs'
